@@ -195,8 +195,8 @@ func cfgPL(name string) explore.Config {
 func runC06(c *explore.Ctx) {
 	var spaces []plSpace
 	if c.Thorough() {
-		spaces = []plSpace{{"E", "ROLL", 6}, {"E", "ROLL+SW", 6}, {"E", "ROLL1", 5}, {"E", "ROLL1+SW", 5}, {"E", "BIGC", 5}, {"E", "BIGC+SW", 5}, {"S2", "ROLL", 5}, {"S2", "ROLL+SW", 5}, {"T", "BIGC", 4},
-			{"RU", "ROLL", 6}, {"T!hdr3", "BIGC", 4}, {"T!torn", "BIGC", 4}, {"S2!torn", "ROLL", 4}, {"S2!unclean", "ROLL", 4}}
+		spaces = []plSpace{{"E", "ROLL", 7}, {"E", "ROLL+SW", 7}, {"E", "ROLL1", 6}, {"E", "ROLL1+SW", 6}, {"E", "BIGC", 6}, {"E", "BIGC+SW", 6}, {"S2", "ROLL", 6}, {"S2", "ROLL+SW", 6}, {"T", "BIGC", 5},
+			{"RU", "ROLL", 7}, {"T!hdr3", "BIGC", 5}, {"T!torn", "BIGC", 5}, {"S2!torn", "ROLL", 5}, {"S2!unclean", "ROLL", 5}}
 	} else {
 		spaces = []plSpace{{"E", "ROLL", 3}, {"E", "ROLL+SW", 3}, {"E", "ROLL1", 3}, {"E", "ROLL1+SW", 3}, {"E", "BIGC", 3}, {"S2", "ROLL", 3}, {"S2", "ROLL+SW", 2},
 			// sessions that follow an earlier failure (torn size header / torn record left in the newest segment), and a log
@@ -213,7 +213,7 @@ func runC06(c *explore.Ctx) {
 func runC09(c *explore.Ctx) {
 	var spaces []plSpace
 	if c.Thorough() {
-		spaces = []plSpace{{"E", "ROLL", 6}, {"E", "ROLL+SW", 6}, {"E", "BIGC", 6}, {"E", "BIGC+SW", 5}, {"S2", "ROLL", 6}, {"S4", "ROLL", 5}, {"S3", "ROLL", 4}, {"CH", "BIGC", 4}, {"SP", "BIGC", 4}, {"S2!unclean", "ROLL", 4}, {"CH!unclean", "BIGC", 3}, {"T!unclean", "BIGC", 3}, {"T!torn", "BIGC", 4}, {"S2!torn", "ROLL", 4}}
+		spaces = []plSpace{{"E", "ROLL", 7}, {"E", "ROLL+SW", 7}, {"E", "BIGC", 7}, {"E", "BIGC+SW", 6}, {"S2", "ROLL", 7}, {"S4", "ROLL", 6}, {"S3", "ROLL", 5}, {"CH", "BIGC", 5}, {"SP", "BIGC", 5}, {"S2!unclean", "ROLL", 5}, {"CH!unclean", "BIGC", 4}, {"T!unclean", "BIGC", 4}, {"T!torn", "BIGC", 5}, {"S2!torn", "ROLL", 5}}
 	} else {
 		spaces = []plSpace{{"E", "ROLL", 4}, {"E", "ROLL+SW", 3}, {"E", "BIGC", 4}, {"E", "BIGC+SW", 3}, {"S2", "ROLL", 4}, {"S4", "ROLL", 3}, {"SP", "BIGC", 2}, {"CH", "BIGC", 2}, {"S2!unclean", "ROLL", 2}, {"CH!unclean", "BIGC", 1}, {"T!torn", "BIGC", 2}, {"S2!torn", "ROLL", 2}}
 	}
